@@ -44,8 +44,12 @@ CHECKS = [
         "n-sampling collector writes exactly positions 0,n,2n,... with the running totals; pass-through writes every event unchanged; nil is "
         "refused and changes nothing; unmarshal(marshal p) = p over explicit key tables; timestamps survive at millisecond precision. "
         "Correspondence: histories through three event collectors x five ftdc collectors decoded with ReadMetrics, marshal/unmarshal and "
-        "MarshalBSON round trips; extracted oracles applied to the decoded samples.",
-        "Trusted: as C12. Errors of the wrapped ftdc collector are outside the events model (base collector given ample capacity); timestamps "
+        "MarshalBSON round trips; extracted oracles applied to the decoded samples. Section 11 (Model/EventsMore.v): the interval and "
+        "random-sampling collectors over explicit clock / coin lists - their running totals are the cumulative collector's whatever clock and "
+        "coins, what they write is its output thinned by an explicit mask; interval <= 0 and percent > 100 are the cumulative collector, an "
+        "interval that never elapses is the sampling collector beyond the sequence length; the harness drives them at those parameter values.",
+        "Trusted: as C12. A wrapped ftdc collector that refuses a write is driven (what is handed over does not depend on it) but its "
+        "refusals are not part of the events model; timestamps "
         "kept within years 1800-2200 (UnixNano range is C01's concern); sampling rate 0 modelled as a panic, excluded (n >= 1).",
         "Coq proof (induction over operation histories on an explicit object store) + differential correspondence",
         "DESIGN.md section 8 C14"),
@@ -221,7 +225,10 @@ CHECKS = [
         "Add leaves the decoded contents unchanged and the state literally unchanged (except the streaming collector's flush-before-add on "
         "unreadable input); C07_resolve_readonly; C07_reset_fresh — after Reset every continuation behaves as on a fresh collector (with the "
         "metadata the code keeps). Correspondence: all histories of length <= 3/5 over 8 operation symbols + random long ones, observed after "
-        "every operation; the same c07_step oracle is applied to the implementation's observations.",
+        "every operation; the same c07_step oracle is applied to the implementation's observations. Section C07Wrappers: "
+        "C07_writer_collector_is_sdyn (every NewWriterCollector history is the streaming-dynamic history of the translated operations), "
+        "C07_sampling_zero_is_identity / C07_sampling_long_first_only / C07_sampling_inner_history / C07_sampling_never_invents "
+        "(NewSamplingCollector over an explicit clock) justify how the histories through those two entry points are evaluated.",
         "Trusted: as C01. 'only the last chunk of a schema run may hold fewer' is proved as exact chunk sizes for the schema-aware kinds on pure Add "
         "sequences (C08_dynamic), for general histories only the upper bound is proved. Documents the collector cannot tell apart (same metric count "
         "and types, for schema-aware kinds same key paths) are assumed to have one schema.",
@@ -285,7 +292,11 @@ CHECKS = [
         "0<=v<=hi the value is accepted, lies in its reported equivalence range, the range is no wider than max(unit, v*10^-s) and is exactly "
         "the set of values counted together; the iterator cells enumerate the counts array once; for every record sequence total = successes "
         "= sum of counts = sum of distribution bars. The model is tied to /repo on every run by a differential correspondence check "
-        "(geometry, index functions, Min/Max/quantile, distributions) and the extracted oracle c12_ok is applied to the implementation's observations.",
+        "(geometry, index functions, Min/Max/quantile, distributions) and the extracted oracle c12_ok is applied to the implementation's observations. "
+        "In addition the integer arithmetic of hdrhist/hdr.go (bitLen, getBucketIndex, getSubBucketIdx, countsIndex(For), valueFromIndex, "
+        "sizeOf/lowest/next/highest/medianEquivalentValue, the RecordValues bounds test, the integer part of New) is TRANSLATED from the Go source "
+        "into Gallina on every run (harness/hdrtrans.go -> coq/Generated/HdrArith.v) and Props/FactsHdr.v re-proves each translated function equal "
+        "to the model's and restates C12_accepts / C12_in_range / C12_width (and C13_rank) over the translated functions.",
         "Trusted: Coq kernel, extraction, OCaml/Go/python glue, generator quality. Float64 Log2/Pow steps of New are replaced by exact integer "
         "functions in the model and tied by correspondence only (exhaustively for s in 1..5, lo sampled up to 2^41). hi < 2^62 assumed.",
         "Coq proof (induction, Z.log2 arithmetic) + differential correspondence model vs implementation",
